@@ -504,7 +504,7 @@ class MQTTProtocol(MQTTBaseProtocol):
         Handle ack of UNSUBACK packet
         '''
         log.error("{packet:7} (id={request.msgId:04x}) {timeout}, retransmitting", packet="UNSUBSCRIBE", request=request,  timeout="timeout")
-        self.reUnubscribe(request,  dup=True)
+        self._retryUnsubscribe(request,  dup=True)
 
     # --------------------------------------------------------------------------
 
